@@ -665,11 +665,56 @@ func reduceDepth(r *mon.Run, d account.AccountDatabase, c Case, f rawFinding, bu
 		r.Violation("C04:accessor:"+f.item.Acc+":"+trigger,
 			fmt.Sprintf("[%s] %s answered %q when the snapshot was taken and %q after reverting to it; history %v (account kind before the region: %s)", c.Mode, w.Accessor, w.Was, w.Now, hist, detail), w)
 	case "view":
+		// roots agree, but Exist after the root computation / the reopened state differ from the
+		// twin. Classified exactly like a root leak: which side lost the account, touch-only
+		// region or not, which ingredient it needs.
 		th, _ := twinOf(m, f.label)
 		res := twinCheck(d, m, th, fm)
 		w.View = res.view
-		r.Violation("C04:exist:after-root-differs-from-twin"+suffix,
-			fmt.Sprintf("[%s] roots agree, but after the history %v the state answers differently from the twin without the reverted region: %v", c.Mode, hist, res.view), w)
+		k := "later-divergence"
+		for _, v := range res.view {
+			if strings.HasPrefix(v, "Exist(") && strings.HasSuffix(v, `original "false", twin "true"`) {
+				k = "only-in-twin"
+				break
+			}
+			if strings.HasPrefix(v, "Exist(") && strings.HasSuffix(v, `original "true", twin "false"`) {
+				k = "only-in-original"
+			}
+		}
+		touchOnly := false
+		if s, e, ok := regionBounds(m, f.label); ok && f.label != 0 {
+			touchOnly = true
+			for _, o := range m[s : e+1] {
+				if fam := family[o.K]; fam != "" && fam != "touch" {
+					touchOnly = false
+				}
+			}
+		}
+		differs := func(hh []Op, ff finalMode) bool {
+			ok := true
+			safe(func() bool {
+				th, valid := twinOf(hh, f.label)
+				if p, _ := firstOutOfScopePanic(d, hh); !valid || p >= 0 {
+					return false
+				}
+				res := twinCheck(d, hh, th, ff)
+				ok = res.mismatch() || len(res.view) > 0
+				return true
+			})
+			return ok
+		}
+		sig := "C04:exist:unexplained:" + cls + ":" + k + suffix
+		if k == "only-in-twin" && touchOnly {
+			sig = "C04:exist:touched-empty-account-lost-after-revert" + suffix
+		} else if ing, ok := needs(m, fm, differs); ok {
+			sig = "C04:twin-root:needs-" + ing
+			if ing == "empty-account-deletion" {
+				sig += ":" + trigger + ":" + k
+			}
+			w.Needs = ing
+		}
+		r.Violation(sig,
+			fmt.Sprintf("[%s] roots agree, but after the history %v the state answers differently from the twin without the reverted region: %v (account kind before the region: %s; features: %s)", c.Mode, hist, res.view, detail, cls+suffix), w)
 	case "commit", "code":
 		th, _ := twinOf(m, f.label)
 		res := twinCheck(d, m, th, fm)
